@@ -161,6 +161,8 @@ class View(object):
             tt, lab = self.x.trace[j]
             if tt == t and lab[0] in ('commit', 'rollback'): return j
         return None
+    def sample(self):
+        return sample_of(self.progs, self.x, self, 24)
     def outcome(self):
         return (tuple((r['status'], r.get('cls')) for r in self.res),
                 tuple(sorted((o, tuple(sorted(r.items()))) for o, r in self.final.items())))
@@ -420,3 +422,88 @@ def run_on_pg(db, pool, prog, t=0):
 def where_columns(sql):
     """column names compared in the WHERE clause of an UPDATE"""
     return re.findall(r'"(\w+)" (?:=|IS NULL)', sql.split('WHERE', 1)[1]) if 'WHERE' in sql else []
+
+# ---- exploring one program tuple; aggregation (shared by C20, C21, C35) --------------------------------
+def explore_item(item, seed, sub, prop, progs, judge, world_factory=None, body_factory=None, view_factory=None):
+    """item = (kind, program names, preemption bound | None = all interleavings, 'visible' | 'all').
+    judge(view, counters) -> [(signature, message)]. Returns the explorer statistics + outcome set."""
+    import random
+    kind, names, bound, points = item
+    world = (world_factory or make_world)()
+    body_factory = body_factory or body_of
+    view_factory = view_factory or View
+    try:
+        ex = tx.Explorer(world, [body_factory(p) for p in progs], observe=True, points=points)
+        outcomes, counters, reported, samples = set(), {}, set(), []
+        def bump(k, n=1): counters[k] = counters.get(k, 0) + n
+        def visit(x):
+            v = view_factory(world, progs, x)
+            outcomes.add(v.outcome())
+            if x.waits: bump('executions_with_a_session_waiting_on_the_lock')
+            for r_ in v.res:
+                if r_['status'] == 'exc': bump('exc_' + r_['cls'])
+            for sig, msg in judge(v, counters):
+                if sig not in reported:
+                    reported.add(sig)
+                    tx.check_replay(ex, x)          # must reproduce identically before it is reported
+                sub.violation(sig, case_of(prop, progs, x, dict(points=points, trace=x.describe(40))), msg)
+            if ex.executions in (2, 5) and kind != 'xcheck': samples.append(v.sample())
+        st = ex.explore(bound, visit, rng=random.Random(seed) if seed else None)
+        if kind != 'xcheck' and ex.executions:
+            tx.check_replay(ex, ex.run(()))         # determinism spot check on every program tuple
+            bump('replay_determinism_checks')
+        for k, n in counters.items(): sub.count(k, n)
+        st['outcomes'] = sorted(outcomes, key=repr)
+        st['samples'] = samples
+        return st
+    finally:
+        world.close()
+
+def merge(ctx, results):
+    """deterministic aggregation (sorted by item) of worker results"""
+    agg = dict(states=0, transitions=0, executions=0, traces=0, deadlocks=0, outcomes=0, by_pre={}, per_kind={}, bounds={})
+    xsets = {}
+    for res in sorted(results, key=lambda r: repr(r['item'])):
+        kind, names, bound, points = res['item']
+        st = res['stats']
+        core.absorb(ctx, res['sub'])
+        if kind == 'xcheck':
+            xsets[tuple(names)] = (st['outcomes'], st['executions'])
+            ctx.count('xcheck_executions_all_points', st['executions'])
+            continue
+        agg['states'] += st['states']; agg['transitions'] += st['transitions']; agg['executions'] += st['executions']
+        agg['traces'] += st['distinct_traces']; agg['deadlocks'] += st['deadlocks']; agg['outcomes'] += len(st['outcomes'])
+        for k, n in st['by_preemptions'].items(): agg['by_pre'][k] = agg['by_pre'].get(k, 0) + n
+        pk = agg['per_kind'].setdefault(kind, dict(program_tuples=0, executions=0, tuples_with_more_than_one_outcome=0))
+        pk['program_tuples'] += 1; pk['executions'] += st['executions']
+        pk['tuples_with_more_than_one_outcome'] += len(st['outcomes']) > 1
+        agg['bounds'].setdefault(kind, set()).add(str(st['bound_completed']))
+        if st['capped']: ctx.cap('execution cap hit for %r' % (names,))
+        for s in st['samples'][:1]: ctx.sample(s)
+    agg['xsets'] = xsets
+    return agg
+
+def xcheck(ctx, agg, results):
+    """the point reduction (cursor/connect/close/PRAGMA/no-op commit+rollback are not scheduling points) must
+    not lose outcomes: the same tuples explored with EVERY driver call as a point give only outcomes that
+    the reduced exploration has seen too"""
+    ref = {}
+    for res in results:
+        kind, names, bound, points = res['item']
+        if kind != 'xcheck': ref.setdefault(tuple(names), set()).update(map(repr, res['stats']['outcomes']))
+    n = 0
+    for names, (outs, execs) in sorted(agg['xsets'].items()):
+        if not set(map(repr, outs)) <= ref.get(names, set()):
+            raise core.HarnessError('point reduction lost/changed outcomes for %r' % (names,))
+        n += 1
+    ctx.count('xcheck_tuples_all_points_outcomes_contained', n)
+
+def coverage(ctx, agg):
+    ctx.cov.update(distinct_traces=agg['traces'], distinct_outcomes_summed_over_program_tuples=agg['outcomes'],
+                   executions_by_preemptions=agg['by_pre'], deadlocks=agg['deadlocks'], per_kind=agg['per_kind'],
+                   preemption_bound_completed={k: sorted(v) for k, v in agg['bounds'].items()})
+    ctx.assume('scheduling points: execute/executemany, commit/rollback inside a transaction, acquires of the provider locks; '
+               'cursor()/connect/close/connection-local PRAGMA/no-op commit+rollback are folded into the preceding transition '
+               '(cross-checked against all-driver-calls-are-points on %d tuples)' % len(agg['xsets']))
+    ctx.assume('timeout=0: SQLite busy conflicts are immediate errors; cooperative scheduling hides races inside one transition')
+    return dict(states=agg['states'], transitions=agg['transitions'], traces_validated_against_impl=agg['executions'])
